@@ -153,18 +153,22 @@ PROPS = {
         "claim": {
             "text": "Per built-in constraint, estimate vs exact check under the engine invariant: proved sound AND complete "
                     "for Maximum (every capacity resource and the distance limit) in all three regimes of "
-                    "maximumImpl.EstimateIsViolated, and exact for MaximumStops and Attributes (which have no exact "
-                    "check). The temporal estimates (Latest, MaximumWaitStop, MaximumWaitVehicle) and NoMix are NOT "
-                    "modelled (partial): they are decided by the property's own observable on the real code — every "
-                    "move the engine calls executable (best moves and explicitly constructed moves, in random "
-                    "histories on generated JSON models incl. tight windows, wait limits, non-metric and "
-                    "time-dependent matrices) is executed and must succeed; check.SolutionCheck's moves_failed is read too.",
+                    "maximumImpl.EstimateIsViolated, exact for MaximumStops and Attributes (which have no exact "
+                    "check), and EXACT for the two waiting-time estimates (maximumWaitStop, maximumWaitVehicle: walk "
+                    "with early exit, for arbitrary windows, travel matrices and duration groups, NR.WaitEst) — the "
+                    "estimates as found are kept with machine-checked counterexamples (E8, E23, both repaired in /repo). "
+                    "Model and code are compared line by line on every move of every history (est max|waitv|waits). "
+                    "Latest (walks the whole route, no early exit) and NoMix are NOT modelled (partial): they are decided "
+                    "by the property's own observable on the real code — every move the engine calls executable (best "
+                    "moves and explicitly constructed moves, in random histories on generated JSON models incl. tight "
+                    "windows, wait limits, non-metric and time-dependent matrices, arrival-neutral detours) is executed "
+                    "and must succeed; check.SolutionCheck's moves_failed is read too.",
             "note": TB_COMMON + " The hypothetical-route iterator (solutionStopGenerator) is abstracted to the list of "
                     "values it walks.",
             "technique": "Lean 4 proof (estimate/exact equivalence for Maximum, MaximumStops, Attributes) + executable-then-Execute differential on the real code",
             "design_ref": "DESIGN.md §5 C09",
         },
-        "lean_props": ["C09", "C01"],
+        "lean_props": ["C09", "C09W", "C01"],
         "facts": ["CheckFacts"],
         "streams": [HIST, {"name": "histw", "corpus": True}],
     },
@@ -172,16 +176,19 @@ PROPS = {
         "claim": {
             "text": "Theorems: combineAscending enumerates exactly the order-preserving placements, once each; generate "
                     "enumerates exactly those that split no direct pair, once each, and equals combineAscending without "
-                    "direct pairs; folding takeBestInPlace over any candidate list returns an executable candidate iff "
-                    "one exists and its value is the minimum over the executable ones, for ANY tie-break stream. Tie: "
-                    "BestMove vs the minimum over NewMoveStops on every enumerated placement (the property's oracle) "
-                    "for every stops-unit of up to 3 stops in random histories. The DAG-constrained order sampler is "
-                    "tied by that oracle, not modelled (partial).",
+                    "direct pairs; the stop-order generator (NR.Seq, sequenceGenerator) produces exactly the orders the "
+                    "unit's DAG allows (direct arcs adjacent), each once, for ANY random order of its levels, and the "
+                    "sample is a prefix of them — the generator as found skipped valid orders (E24, counterexample "
+                    "theorem, repaired in /repo); folding takeBestInPlace over any candidate list returns an executable "
+                    "candidate iff one exists and its value is the minimum over the executable ones, for ANY tie-break "
+                    "stream. Ties: SequenceGeneratorChannel vs NR.Seq.orders on every multi-stop unit (seq lines), the "
+                    "placement generator vs NR.Gen (gen lines), and BestMove vs the minimum over NewMoveStops on every "
+                    "enumerated placement (the property's oracle) for every stops-unit of up to 3 stops in random histories.",
             "note": TB_COMMON + " Scope: plan units made of stops; units of units are searched greedily by construction.",
             "technique": "Lean 4 proof (enumeration completeness, min-fold) + exhaustive-enumeration differential on the real code",
             "design_ref": "DESIGN.md §5 C10",
         },
-        "lean_props": ["C10"],
+        "lean_props": ["C10", "C10S"],
         "streams": [HIST],
     },
     "C11": {
